@@ -24,9 +24,9 @@ TIERS = {"quick": {"shards": 8, "budget_s": 110}, "thorough": {"shards": 16, "bu
 REQUIRE = {"circuits-with-a-branch-statement": 150, "op:used_qubits": 300, "native:partial": 50, "op:expand_subcircuits_custom": 100, "histories": 500, "calls": 4000, "contract-evaluations": 4000, "results-compared-with-fresh": 4000,
            "op:run": 200, "op:parse_output": 200, "op:unit_timing": 200, "chained-calls": 300}
 
-OPS = ["expand_macros", "expand_macros_preserve", "fill_in_let", "fill_in_let_ov", "fill_in_map", "expand_subcircuits",
+OPS = ["expand_macros", "expand_macros_preserve", "fill_in_let", "fill_in_let_ov", "fill_in_let_ov_b", "fill_in_map", "expand_subcircuits",
        "expand_subcircuits_custom", "expand_subcircuits_names", "unit_timing", "used_qubits", "generate", "run", "parse_output"]
-CIRCUIT_OPS = {"expand_macros", "expand_macros_preserve", "fill_in_let", "fill_in_let_ov", "fill_in_map", "expand_subcircuits",
+CIRCUIT_OPS = {"expand_macros", "expand_macros_preserve", "fill_in_let", "fill_in_let_ov", "fill_in_let_ov_b", "fill_in_map", "expand_subcircuits",
                "expand_subcircuits_custom", "expand_subcircuits_names", "unit_timing"}
 _CUSTOM = {}
 
@@ -87,6 +87,9 @@ def do(op, c, ctxd):
         return lib.fill_in_let(c)
     if op == "fill_in_let_ov":
         return lib.fill_in_let(c, dict(ctxd["ov"]))
+    if op == "fill_in_let_ov_b":
+        # the same names with other values (the next point of a sweep)
+        return lib.fill_in_let(c, {k: v + 0.75 for k, v in ctxd["ov"].items()})
     if op == "fill_in_map":
         return lib.fill_in_map(c)
     if op == "expand_subcircuits":
@@ -262,6 +265,9 @@ def judge_(case, rec=None):
 
 def make_history(rng, n):
     h = []
+    if rng.random() < 0.2:
+        # a sweep: the same pass with the same names and changing values, back to back on one object
+        h += ["fill_in_let_ov", "fill_in_let_ov_b", "fill_in_let_ov", "fill_in_let_ov_b"]
     for _ in range(n):
         if rng.random() < 0.25:
             h.append([rng.choice(sorted(CIRCUIT_OPS)), rng.choice(OPS)])
